@@ -426,6 +426,8 @@ ErrorWhy(gg, V, e) == LET c == e.class IN
        (IF ~\E p \in DOMAIN V : (StepLimitHit(V[p]) \/ LimitAtDeadEnd(V[p]))
                                  /\ (e.path = PathOf(gg, p) \/ (gg.lower = "chain" /\ Len(e.path) = Len(PathOf(gg, p)))) THEN "max-steps-error-not-expected"
         ELSE IF ~e.is THEN "max-steps-sentinel-not-matchable" ELSE "ok")
+  \* (the store refused the checkpoint write: the call must fail with that error instead of returning an interrupt nobody can resume)
+  ELSE IF c = "store" THEN (IF gg.storefail THEN "ok" ELSE "store-error-without-a-refused-write")
   ELSE IF c = "canceled" THEN
        (IF ~CancelRan(V) THEN "canceled-without-cancel" ELSE IF ~e.is THEN "context-error-not-matchable" ELSE "ok")
   ELSE IF c \in {"stuck", "endskipped"} THEN
